@@ -228,7 +228,7 @@ def h_duty(ctx, k, overlap, level_sym, via):
 # ---- MQTT
 
 
-def run_mqtt(env, k):
+def run_mqtt(env, k, overlap=False):
     import asyncio
     from ramses_tx import transport as T
 
@@ -274,15 +274,25 @@ def run_mqtt(env, k):
             r["done"] = loop.time()
             r["published"] = len(pubs) - n0
 
+    async def one(r):
+        await asyncio.sleep(r["t"])
+        r["called"] = loop.time()
+        await T.MqttTransport.write_frame(tx, r["frame"])
+        r["done"] = loop.time()
+        r["published"] = sum(1 for _, p in pubs if r["frame"] in p)
+
+    async def par():
+        await asyncio.gather(*[one(r) for r in reqs])
+
     from symx.vloop import running
 
     with running(loop):
-        task = loop.create_task(seq())
+        task = loop.create_task(par() if overlap else seq())
     loop.run(until=task, horizon=10_000)
     return reqs, pubs, mx, lv, task, tx
 
 
-def oracle_mqtt(env, reqs, pubs, mx, lv, task, tx):
+def oracle_mqtt(env, reqs, pubs, mx, lv, task, tx, overlap=False):
     done = task.done()
     env.check(done, "C11:mqtt:every-call-ends")
     if not done:
@@ -296,8 +306,10 @@ def oracle_mqtt(env, reqs, pubs, mx, lv, task, tx):
         wait = r["done"] - r["called"]
         if r["published"] == 0:
             env.check(wait == 0, "C11:mqtt:over-budget-write-is-dropped-at-once")
-        else:
+        elif not overlap:
             env.check(wait <= 1 + EPS, "C11:mqtt:accepted-write-sleeps-at-most-one-second")
+        else:  # several callers asleep at once: the debt of those ahead adds up, but stays below one refill second each
+            env.check(wait <= len(reqs) + EPS, "C11:mqtt:accepted-write-sleeps-at-most-one-second")
     ts = [t for t, _ in pubs]
     for i in range(len(ts)):
         for j in range(i, len(ts)):
@@ -306,13 +318,14 @@ def oracle_mqtt(env, reqs, pubs, mx, lv, task, tx):
             env.check((j - i + 1) <= rate * (ts[j] - ts[i]) + allowance, "C11:mqtt:publishes-within-token-allowance", info=f"{i}..{j}")
     for j in range(len(ts)):  # inductive form: from the given token level at time 0
         env.check((j + 1) <= lv + rate * ts[j] + rate + Fraction(1, 1000), "C11:mqtt:publishes-within-level-plus-refill", info=f"..{j}")
-    env.check(tx._num_tokens >= -rate - Fraction(1, 1000), "C11:mqtt:token-debt-bounded")
+    if not overlap:
+        env.check(tx._num_tokens >= -rate - Fraction(1, 1000), "C11:mqtt:token-debt-bounded")
 
 
-def h_mqtt(ctx, k):
+def h_mqtt(ctx, k, overlap=False):
     env = Env(ctx=ctx)
-    out = run_mqtt(env, k)
-    oracle_mqtt(env, *out)
+    out = run_mqtt(env, k, overlap)
+    oracle_mqtt(env, *out, overlap=overlap)
     return (len(out[1]),)
 
 
@@ -325,12 +338,14 @@ def queries(tier, seed):
                 if overlap and k == 1:
                     continue
                 for level_sym in (False, True):
-                    if via == "port" and (k > 2 or (k == 2 and level_sym)) and not thorough:
-                        continue
+                    if via == "port" and not thorough and ((k > 2 and (overlap or level_sym)) or (k == 2 and level_sym)):
+                        continue  # (port, quick: k = 3 only sequential from a full bucket - the write-spacing case)
                     qs.append(Query(f"duty[{via}|k={k}|{'overlap' if overlap else 'seq'}|{'level=sym' if level_sym else 'full'}]", lambda c, a=(k, overlap, level_sym, via): h_duty(c, *a),
                                     {"h": "duty", "k": k, "overlap": overlap, "level_sym": level_sym, "via": via}, group=f"duty:{via}", max_secs=900 if thorough else 200, max_paths=200_000, weight=k * (2 if overlap else 1), split_depth=8))
     for k in ((1, 2, 3, 4) if thorough else (1, 2, 3)):
         qs.append(Query(f"mqtt[k={k}]", lambda c, a=(k,): h_mqtt(c, *a), {"h": "mqtt", "k": k}, group="mqtt", max_secs=900 if thorough else 200, max_paths=200_000, weight=k, split_depth=8))
+    for k in ((2, 3, 4, 5) if thorough else (2, 3, 4)):
+        qs.append(Query(f"mqtt[k={k}|overlap]", lambda c, a=(k, True): h_mqtt(c, *a), {"h": "mqtt", "k": k, "overlap": True}, group="mqtt", max_secs=900 if thorough else 200, max_paths=200_000, weight=2 * k, split_depth=8))
 
     def canary(c):
         env = Env(ctx=c)
@@ -354,8 +369,8 @@ def replay(item):
         oracle_duty(env, *out[:5], prm["overlap"], prm["via"])
         desc = f"requests {[(float(r['t']), r['n']) for r in out[0]]} level {float(out[2])} -> writes {[(float(t), len(f)) for t, f in out[1]]}"
     else:
-        out = run_mqtt(env, prm["k"])
-        oracle_mqtt(env, *out)
+        out = run_mqtt(env, prm["k"], prm.get("overlap", False))
+        oracle_mqtt(env, *out, overlap=prm.get("overlap", False))
         desc = f"tokens {float(out[3])}/{float(out[2])}, requests {[float(r['t']) for r in out[0]]} -> publishes {[float(t) for t, _ in out[1]]}, waits {[float(r.get('done', 0) - r.get('called', 0)) for r in out[0]]}"
     failed = [l for l, _ in env.failed]
     return {"reproduced": label in failed, "observed": f"{desc} :: failed={sorted(set(failed))}"[:800], "signature": f"{prm['h']}[{prm.get('via', 'mqtt')}]: {label.split(':', 1)[1]}"}
